@@ -246,6 +246,16 @@ func (c *CLIOp) ProposeBatch(dkgHex string, data map[string][]byte) error {
 			return fmt.Errorf("file name not usable on disk: %w", err)
 		}
 	}
+	// an operator's directory is rarely flat: sub-directories (sorting before, between and after the files)
+	// are not part of the batch
+	for _, sub := range []string{"!already-signed", "m-archive", "~old"} {
+		if _, clash := data[sub]; clash {
+			continue
+		}
+		if err := os.MkdirAll(filepath.Join(d, sub), 0o755); err == nil {
+			_ = os.WriteFile(filepath.Join(d, sub, "inner.txt"), []byte("not part of the batch"), 0o600)
+		}
+	}
 	_, err := c.Run("", "sign_batch_data", dkgHex, d)
 	return err
 }
